@@ -85,7 +85,7 @@ package aggregate
 // (the float64 difference is named so that the quantified clauses need no floating-point reasoning)
 //@ spec deltaF(v float64, seen bool, prev float64) float64 = v - ite(seen, prev, 0.0)
 //@ func (s *precomputedSum[N]) delta(dest *metricdata.Aggregation) (n int)
-//@   prop C08
+//@   prop C08 C12
 //@   instances int64; float64
 //@   acquires valueMap.Mutex
 //@   overflow assumed
@@ -237,6 +237,45 @@ package aggregate
 //@ props C07
 //@ canary KF-C07-int64-bucket-rounding int64_bucket_is_exact bv: forall v int64 : forall b float64 : float64(v) <= b ==> exactLE(v, b)
 
+// explicit-bucket histogram collection: one data point per stream over [start, t] carrying the stream's count, sum and bucket
+// counts; delta hands over the streams' own count slices and forgets the streams; cumulative keeps the streams and hands over a
+// COPY of each count slice (the stream keeps counting into its own)
+//@ guarded_by histValues.valuesMu: values
+//@ func (s *histogram[N]) delta(dest *metricdata.Aggregation) (n int)
+//@   prop C08 C07
+//@   instances int64; float64
+//@   acquires histValues.valuesMu
+//@   overflow assumed
+//@   unchecked frame the destination's previous data point slice may be reused in place
+//@   requires s != nil && s.histValues != nil && s.values != nil && dest != nil
+//@   requires forall k attribute.Distinct : has(s.values, k) ==> s.values[k] != nil && s.values[k].res != nil
+//@   ensures n == old(len(s.values)) && len(s.values) == 0 && s.start === now()
+//@   ensures typeis(*dest, "metricdata.Histogram[$N]") && cast(*dest, "metricdata.Histogram[$N]").Temporality == metricdata.DeltaTemporality && len(cast(*dest, "metricdata.Histogram[$N]").DataPoints) == n
+//@   ensures forall j in 0 .. n : cast(*dest, "metricdata.Histogram[$N]").DataPoints[j].StartTime === old(s.start) && cast(*dest, "metricdata.Histogram[$N]").DataPoints[j].Time === now()
+//@   ensures forall j in 0 .. n : exists k attribute.Distinct : old(has(s.values, k)) && cast(*dest, "metricdata.Histogram[$N]").DataPoints[j].Count == old(s.values[k].count) && cast(*dest, "metricdata.Histogram[$N]").DataPoints[j].Attributes == old(s.values[k].attrs) && cast(*dest, "metricdata.Histogram[$N]").DataPoints[j].BucketCounts === old(s.values[k].counts) && (!s.noSum ==> cast(*dest, "metricdata.Histogram[$N]").DataPoints[j].Sum === old(s.values[k].total))
+//@   loop#1 invariant i == $iter && 0 <= i && i <= n && len(hDPts) == n && s.start === old(s.start)
+//@   loop#1 invariant forall j in 0 .. i : hDPts[j].StartTime === old(s.start) && hDPts[j].Time === t
+//@   loop#1 invariant forall j in 0 .. i : exists k attribute.Distinct : old(has(s.values, k)) && hDPts[j].Count == old(s.values[k].count) && hDPts[j].Attributes == old(s.values[k].attrs) && hDPts[j].BucketCounts === old(s.values[k].counts) && (!s.noSum ==> hDPts[j].Sum === old(s.values[k].total))
+//@   loop#1 invariant forall k attribute.Distinct : has(s.values, k) == old(has(s.values, k)) && (has(s.values, k) ==> s.values[k] == old(s.values[k]) && *s.values[k] === old(*s.values[k]))
+
+//@ func (s *histogram[N]) cumulative(dest *metricdata.Aggregation) (n int)
+//@   prop C08 C07
+//@   instances int64; float64
+//@   acquires histValues.valuesMu
+//@   overflow assumed
+//@   unchecked frame the destination's previous data point slice may be reused in place
+//@   requires s != nil && s.histValues != nil && s.values != nil && dest != nil
+//@   requires forall k attribute.Distinct : has(s.values, k) ==> s.values[k] != nil && s.values[k].res != nil
+//@   ensures n == old(len(s.values)) && len(s.values) == old(len(s.values)) && s.start === old(s.start)
+//@   ensures forall k attribute.Distinct : has(s.values, k) == old(has(s.values, k)) && (has(s.values, k) ==> s.values[k] == old(s.values[k]) && *s.values[k] === old(*s.values[k]))
+//@   ensures typeis(*dest, "metricdata.Histogram[$N]") && cast(*dest, "metricdata.Histogram[$N]").Temporality == metricdata.CumulativeTemporality && len(cast(*dest, "metricdata.Histogram[$N]").DataPoints) == n
+//@   ensures forall j in 0 .. n : cast(*dest, "metricdata.Histogram[$N]").DataPoints[j].StartTime === old(s.start) && cast(*dest, "metricdata.Histogram[$N]").DataPoints[j].Time === now()
+//@   ensures forall j in 0 .. n : exists k attribute.Distinct : old(has(s.values, k)) && cast(*dest, "metricdata.Histogram[$N]").DataPoints[j].Count == old(s.values[k].count) && cast(*dest, "metricdata.Histogram[$N]").DataPoints[j].Attributes == old(s.values[k].attrs) && len(cast(*dest, "metricdata.Histogram[$N]").DataPoints[j].BucketCounts) == old(len(s.values[k].counts)) && (len(s.values[k].counts) > 0 ==> !samearray(cast(*dest, "metricdata.Histogram[$N]").DataPoints[j].BucketCounts, old(s.values[k].counts)))
+//@   loop#1 invariant i == $iter && 0 <= i && i <= n && len(hDPts) == n && s.start === old(s.start)
+//@   loop#1 invariant forall j in 0 .. i : hDPts[j].StartTime === old(s.start) && hDPts[j].Time === t
+//@   loop#1 invariant forall j in 0 .. i : exists k attribute.Distinct : old(has(s.values, k)) && hDPts[j].Count == old(s.values[k].count) && hDPts[j].Attributes == old(s.values[k].attrs) && len(hDPts[j].BucketCounts) == old(len(s.values[k].counts)) && (len(s.values[k].counts) > 0 ==> !samearray(hDPts[j].BucketCounts, old(s.values[k].counts)))
+//@   loop#1 invariant forall k attribute.Distinct : has(s.values, k) == old(has(s.values, k)) && (has(s.values, k) ==> s.values[k] == old(s.values[k]) && *s.values[k] === old(*s.values[k]))
+
 // ======================================================================== C07 base-2 exponential histograms
 // scaleChange: the number of halvings after which bin and the current window fit into maxSize buckets (or more than 30)
 //@ func (p *expoHistogramDataPoint[N]) scaleChange(bin int32, startBin int32, length int) (r int32)
@@ -252,6 +291,36 @@ package aggregate
 //@   loop#1 invariant startBin < bin ==> low == (int(startBin) >> int(count)) && high == (int(bin) >> int(count))
 //@   loop#1 invariant startBin >= bin ==> low == (int(bin) >> int(count)) && high == ((int(startBin) + length - 1) >> int(count))
 //@   loop#1 decreases 31 - int(count)
+
+// exponential histogram, delta collection: one data point per stream over [start, t]; count, scale, zero count, both bucket
+// offsets and both bucket-count LENGTHS are the stream's (a reused destination must not keep stale bucket counts); afterwards the
+// streams are forgotten and the interval moves on
+//@ guarded_by expoHistogram.valuesMu: values
+//@ func (e *expoHistogram[N]) delta(dest *metricdata.Aggregation) (n int)
+//@   prop C08 C07
+//@   instances int64; float64
+//@   acquires e.valuesMu
+//@   overflow assumed
+//@   unchecked frame the destination's previous data point and bucket slices may be reused in place
+//@   requires e != nil && e.values != nil && dest != nil
+//@   requires forall k attribute.Distinct : has(e.values, k) ==> e.values[k] != nil && e.values[k].res != nil
+//@   ensures n == old(len(e.values)) && len(e.values) == 0 && e.start === now()
+//@   ensures typeis(*dest, "metricdata.ExponentialHistogram[$N]") && cast(*dest, "metricdata.ExponentialHistogram[$N]").Temporality == metricdata.DeltaTemporality && len(cast(*dest, "metricdata.ExponentialHistogram[$N]").DataPoints) == n
+//@   ensures forall j in 0 .. n : exists k attribute.Distinct : old(has(e.values, k)) && cast(*dest, "metricdata.ExponentialHistogram[$N]").DataPoints[j].Count == old(e.values[k].count) && cast(*dest, "metricdata.ExponentialHistogram[$N]").DataPoints[j].Scale == old(e.values[k].scale) && cast(*dest, "metricdata.ExponentialHistogram[$N]").DataPoints[j].NegativeBucket.Offset == old(e.values[k].negBuckets.startBin) && len(cast(*dest, "metricdata.ExponentialHistogram[$N]").DataPoints[j].NegativeBucket.Counts) == old(len(e.values[k].negBuckets.counts)) && len(cast(*dest, "metricdata.ExponentialHistogram[$N]").DataPoints[j].PositiveBucket.Counts) == old(len(e.values[k].posBuckets.counts))
+//@   assert@store Count#* : $val == val.count
+//@   assert@store Scale#* : $val == val.scale
+//@   assert@store ZeroCount#* : $val == val.zeroCount
+//@   assert@store StartTime#* : $val === old(e.start)
+//@   assert@store Time#* : $val === t
+//@   assert@store Offset#1 : $val == val.posBuckets.startBin
+//@   assert@store Offset#2 : $val == val.negBuckets.startBin
+//@   assert@store Counts#1 : len($val) == len(val.posBuckets.counts)
+//@   assert@store Counts#2 : len($val) == len(val.negBuckets.counts)
+//@   assert@call copy#1 : samearray($arg1, val.posBuckets.counts) && len($arg0) == len(val.posBuckets.counts) && len($arg1) == len($arg0)
+//@   assert@call copy#2 : samearray($arg1, val.negBuckets.counts) && len($arg0) == len(val.negBuckets.counts) && len($arg1) == len($arg0)
+//@   loop#1 invariant i == $iter && 0 <= i && i <= n && len(hDPts) == n && e.start === old(e.start)
+//@   loop#1 invariant forall k attribute.Distinct : has(e.values, k) == old(has(e.values, k)) && (has(e.values, k) ==> e.values[k] == old(e.values[k]) && e.values[k] != nil && e.values[k].res != nil && *e.values[k] === old(*e.values[k]))
+//@   loop#1 invariant forall j in 0 .. i : exists k attribute.Distinct : old(has(e.values, k)) && hDPts[j].Count == old(e.values[k].count) && hDPts[j].Scale == old(e.values[k].scale) && hDPts[j].ZeroCount == old(e.values[k].zeroCount) && hDPts[j].PositiveBucket.Offset == old(e.values[k].posBuckets.startBin) && hDPts[j].NegativeBucket.Offset == old(e.values[k].negBuckets.startBin) && len(hDPts[j].PositiveBucket.Counts) == old(len(e.values[k].posBuckets.counts)) && len(hDPts[j].NegativeBucket.Counts) == old(len(e.values[k].negBuckets.counts))
 
 // getBin for scale <= 0: with v = frac * 2^exp, 1/2 <= frac < 1 (math.Frexp) the unique e with 2^e < v <= 2^(e+1) is
 // exp-2 when frac == 1/2 (v is an exact power of two) and exp-1 otherwise; the index i at scale -k satisfies
